@@ -17,8 +17,11 @@ Conventions
   per-recipient loop as a function value, so every definition is structurally recursive; running out of fuel
   sets `crashed` (never a silent default) and `Props` show the fuel the driver uses is enough;
 * an exception nothing in the code catches is `crashed := some reason`; afterwards every operation is a no-op.
-* log forwarding (`RTMALogHandler.emit` → `send_message` → `forward_message`) is modelled for the levels INFO,
-  WARNING, ERROR (DEBUG points are not: the harness drives DEBUG runs only through the history-based Spec).
+* log forwarding (`RTMALogHandler.emit` → `send_message` → `forward_message`) is modelled for every `self.logger.*`
+  call of `manager.py` on the `run()` path: ERROR, WARNING, INFO and the ten DEBUG points (`send_client_close`,
+  `send_client_info`, `send_active_clients`, `send_traffic`, `add/remove_subscription`, the `SET_NAME` line inside
+  `connect_module`'s loop, `FORWARD`), each as `logAt cfg fwd <level>` at the place of the call; with
+  `Cfg.logLevel` above a call's level it is the identity, exactly like the handler's level filter.
 -/
 namespace Pyrtma.Mgr
 
@@ -232,7 +235,8 @@ def removeModule (cfg : Cfg) (fwd : Fwd) (s : State) (u : Nat) : State :=
   match s.find u with
   | none => s                                -- `if module.conn not in self.modules: return`
   | some m =>
-    let s := fwd (removePrep s u m) (closedFrame cfg { m with connected := false })
+    let s := logAt cfg fwd 10 (removePrep s u m)       -- `send_client_close`: `logger.debug("CLIENT_CLOSE")`
+    let s := fwd s (closedFrame cfg { m with connected := false })
     { s with mods := s.mods.filter (·.uid != u) }
 
 /-- `send_failed_message` -/
@@ -371,6 +375,15 @@ def setReq (cfg : Cfg) (buf : List Nat) (h : Hdr) (x : Module) : Module :=
 def setAll (cfg : Cfg) (buf : List Nat) (h : Hdr) (nm : List Nat) (x : Module) : Module :=
   { setReq cfg buf h x with name := nm, isLogger := bufI16 buf 0 == 1, isDaemon := bufI16 buf 2 == 1 }
 
+/-- the `for m in list(self.modules.values())` loop of `connect_module` over the snapshot of the *other* modules:
+    stops at the first clash (`true`); an iteration that passes logs `SET_NAME …` at DEBUG level when the newcomer has a
+    name (the forward of that log message may drop modules; the snapshot is not affected) -/
+def clashLoop (cfg : Cfg) (me : Module) : List Module → State → State × Bool
+  | [], s => (s, false)
+  | o :: rest, s =>
+    if clash me o then (s, true)
+    else clashLoop cfg me rest (if me.name.isEmpty then s else logAt cfg (fwdTop cfg) 10 s)
+
 /-- `connect_module`; returns the state and whether the module was accepted -/
 def connectModule (cfg : Cfg) (s : State) (u : Nat) (h : Hdr) : State × Bool :=
   let m := lookupMod s u
@@ -391,12 +404,14 @@ def connectModule (cfg : Cfg) (s : State) (u : Nat) (h : Hdr) : State × Bool :=
       if m2.modId < 1 || m2.modId > cfg.dynStart then
         let s := logAt cfg fwd 40 s
         (removeModule cfg fwd s u, false)
-      else if (s.mods.filter (·.uid != u)).any (clash m2) then
-        let s := logAt cfg fwd 40 s
-        (removeModule cfg fwd s u, false)
       else
-        let s := s.upd u (fun m => { m with connected := true })
-        ({ s with loggers := if m2.isLogger then setAdd s.loggers u else s.loggers }, true)
+        let (s, clashed) := clashLoop cfg m2 (s.mods.filter (·.uid != u)) s
+        if clashed then
+          let s := logAt cfg fwd 40 s
+          (removeModule cfg fwd s u, false)
+        else
+          let s := s.upd u (fun m => { m with connected := true })
+          ({ s with loggers := if m2.isLogger then setAdd s.loggers u else s.loggers }, true)
     else
       match assignId cfg s with
       | none =>
@@ -407,11 +422,22 @@ def connectModule (cfg : Cfg) (s : State) (u : Nat) (h : Hdr) : State × Bool :=
         let s := s.upd u (fun m => { m with modId := id, connected := true })
         ({ s with loggers := if m2.isLogger then setAdd s.loggers u else s.loggers }, true)
 
+/-- the fields of the connecting `Module` *object* once `connect_module` has accepted it (the object outlives its table
+    entry: `send_client_info(src_module)` describes it even if a log or ACK write removed it in the meantime) -/
+def connectRecord (cfg : Cfg) (s : State) (u : Nat) (h : Hdr) : Module :=
+  let m := lookupMod s u
+  let nm := if h.mtype == cfg.mtConnectV2 then (cstr s.buf 12 32).getD [] else m.name
+  let m2 := setAll cfg s.buf h nm m
+  if m2.modId != 0 then { m2 with connected := true }
+  else match assignId cfg (s.upd u (setAll cfg s.buf h nm)) with
+    | some (id, _) => { m2 with modId := id, connected := true }
+    | none => m2
+
 /-- replace module `u`'s `subs` -/
 def State.setSubs (s : State) (u : Nat) (l : List Int) : State := s.upd u (fun m => { m with subs := l })
 
-/-- `add_subscription` / `resume_subscription` (after the fix: clear first, then add) -/
-def addSub (cfg : Cfg) (s : State) (u : Nat) (t : Int) : State :=
+/-- the table update of `add_subscription` / `resume_subscription` (after the fix: clear first, then add) -/
+def addSubCore (cfg : Cfg) (s : State) (u : Nat) (t : Int) : State :=
   let m := lookupMod s u
   if t == cfg.allTypes then
     ({ s with idx := idxAdd (m.subs.foldl (fun i t' => idxDiscard i t' u) s.idx) t u }).setSubs u [t]
@@ -419,8 +445,15 @@ def addSub (cfg : Cfg) (s : State) (u : Nat) (t : Int) : State :=
   else
     ({ s with idx := idxAdd s.idx t u }).setSubs u (if m.subs.contains t then m.subs else m.subs ++ [t])
 
-/-- `remove_subscription` / `pause_subscription` -/
-def removeSub (cfg : Cfg) (s : State) (u : Nat) (t : Int) : State :=
+/-- a (un)subscription request is logged at DEBUG level unless it is ignored (single type while subscribed to all) -/
+def subLogs (cfg : Cfg) (m : Module) (t : Int) : Bool := t == cfg.allTypes || !m.subs.contains cfg.allTypes
+
+/-- `add_subscription` / `resume_subscription`: the update, then `logger.debug("SUBSCRIBE- …")` -/
+def addSub (cfg : Cfg) (s : State) (u : Nat) (t : Int) : State :=
+  if subLogs cfg (lookupMod s u) t then logAt cfg (fwdTop cfg) 10 (addSubCore cfg s u t) else addSubCore cfg s u t
+
+/-- the table update of `remove_subscription` / `pause_subscription` -/
+def removeSubCore (cfg : Cfg) (s : State) (u : Nat) (t : Int) : State :=
   let m := lookupMod s u
   if t == cfg.allTypes then
     ({ s with idx := m.subs.foldl (fun i t' => idxDiscard i t' u) (idxDiscard s.idx t u) }).setSubs u []
@@ -428,21 +461,29 @@ def removeSub (cfg : Cfg) (s : State) (u : Nat) (t : Int) : State :=
   else
     ({ s with idx := idxDiscard s.idx t u }).setSubs u (m.subs.filter (· != t))
 
+/-- `remove_subscription` / `pause_subscription`: the update, then `logger.debug("UNSUBSCRIBE- …")` -/
+def removeSub (cfg : Cfg) (s : State) (u : Nat) (t : Int) : State :=
+  if subLogs cfg (lookupMod s u) t then logAt cfg (fwdTop cfg) 10 (removeSubCore cfg s u t) else removeSubCore cfg s u t
+
+/-- `send_client_info(module)` for a module object whose record is `m`: `logger.debug("CLIENT_INFO")`, then the frame -/
+def infoOf (cfg : Cfg) (s : State) (m : Module) : State :=
+  fwdTop cfg (logAt cfg (fwdTop cfg) 10 s) (infoFrame cfg m)
+
 def sendInfo (cfg : Cfg) (s : State) (u : Nat) : State :=
   match s.find u with
   | none => s
-  | some m => fwdTop cfg s (infoFrame cfg m)
+  | some m => infoOf cfg s m
 
 /-- `process_message` for the frame whose header is `h` and whose payload is already in `s.buf` -/
 def processMessage (cfg : Cfg) (s : State) (u : Nat) (h : Hdr) : State :=
   let t := h.mtype
   if t == cfg.mtConnect || t == cfg.mtConnectV2 then
+    let m := connectRecord cfg s u h
     let (s, ok) := connectModule cfg s u h
     if ok then
-      let m := lookupMod s u
       let s := sendAck cfg s u
       -- send_client_info(src_module) uses the Module object even if the ACK write just removed it
-      let s := fwdTop cfg s (infoFrame cfg m)
+      let s := infoOf cfg s m
       logAt cfg (fwdTop cfg) 20 s
     else s
   else if t == cfg.mtDisconnect then
@@ -458,13 +499,17 @@ def processMessage (cfg : Cfg) (s : State) (u : Nat) (h : Hdr) : State :=
       removeModule cfg (fwdTop cfg) s u
     | some nm =>
       let s := s.upd u (fun m => { m with name := nm })
+      -- `send_client_info(src_module)`: the object is described even if the INFO log line just removed it
+      let m := lookupMod s u
       let s := logAt cfg (fwdTop cfg) 20 s
-      sendInfo cfg s u
+      infoOf cfg s m
   else if t == cfg.mtModuleReady then
     sendInfo cfg (s.upd u (fun m => { m with pid := bufI32 s.buf 0 })) u
   else
-    fwdTop cfg s { mtype := t, src := h.src, dest := h.dest, destHost := h.destHost,
-                   nbytes := h.nbytes.toNat, body := .data h.k }
+    -- `logger.debug("FORWARD - …")`, then the frame
+    fwdTop cfg (logAt cfg (fwdTop cfg) 10 s)
+      { mtype := t, src := h.src, dest := h.dest, destHost := h.destHost,
+        nbytes := h.nbytes.toNat, body := .data h.k }
 
 /-! ## Reading -/
 
@@ -549,6 +594,7 @@ def trafficFrames (cfg : Cfg) (seqno : Nat) (c : List (Int × Nat)) : List Frame
 
 def sendTraffic (cfg : Cfg) (s : State) : State :=
   let s := { s with inTraffic := true }
+  let s := logAt cfg (fwdTop cfg) 10 s                 -- `logger.debug("MESSAGE_TRAFFIC")`, inside the statistics context
   let s := (trafficFrames cfg s.trafficSeq s.traffic).foldl (fwdTop cfg) s
   { s with inTraffic := false, traffic := [], tTraffic := s.now, trafficSeq := s.trafficSeq + 1 }
 
@@ -556,9 +602,10 @@ def trimZeros (l : List Int) : List Int := (l.reverse.dropWhile (· == 0)).rever
 
 def infoAll (cfg : Cfg) : List Module → State → State
   | [], s => s
-  | m :: rest, s => infoAll cfg rest (fwdTop cfg s (infoFrame cfg ((s.find m.uid).getD m)))
+  | m :: rest, s => infoAll cfg rest (infoOf cfg s ((s.find m.uid).getD m))
 
 def sendActive (cfg : Cfg) (s : State) : State :=
+  let s := logAt cfg (fwdTop cfg) 10 s                 -- `logger.debug("ACTIVE_CLIENTS")`
   let snap := s.mods
   let s := infoAll cfg snap s
   let first := snap.take cfg.maxActive
